@@ -41,6 +41,7 @@ fn gate(p: &Partial, t: Tier) -> Result<(), String> {
     super::need(p, "vrate-value", 4000)?;
     super::need(p, "vrate-no-information", 8)?;
     super::need(p, "eight-way-agreement", 10_000)?;
+    super::need(p, "context-codes", 1000)?;
     Ok(())
 }
 
@@ -53,6 +54,13 @@ struct Code {
     vns: u32,
     vrsign: u32,
     vr: u32,
+    /// CA field of the DF17 squitter
+    ca: u32,
+    /// GNSS/baro difference sign and magnitude
+    diffsign: u32,
+    diff: u32,
+    /// the row already holds this barometric altitude + 1 (0 = none)
+    pre_alt: i32,
 }
 
 #[derive(Clone, Copy)]
@@ -62,14 +70,18 @@ struct V {
 }
 
 fn frame(c: &Code, addr: u32) -> Frame {
-    frames::df17(5, addr, frames::me_velocity(&Vel { st: c.st, dew: c.dew, vew: c.vew, dns: c.dns, vns: c.vns, vrsign: c.vrsign, vr: c.vr, ..Default::default() }))
+    frames::df17(c.ca, addr, frames::me_velocity(&Vel { st: c.st, dew: c.dew, vew: c.vew, dns: c.dns, vns: c.vns, vrsign: c.vrsign, vr: c.vr, diffsign: c.diffsign, diff: c.diff, ..Default::default() }))
 }
 
 fn lines(v: &V, addr: u32) -> Vec<Vec<u8>> {
     let mut l = vec![];
     if v.update {
         l.push(hexline(&frames::df11(5, addr, 0)));
-        l.push(hexline(&frame(&Code { st: 1, dew: 0, vew: S_VEW, dns: 0, vns: S_VNS, vrsign: 0, vr: S_VR }, addr)));
+        l.push(hexline(&frame(&Code { st: 1, dew: 0, vew: S_VEW, dns: 0, vns: S_VNS, vrsign: 0, vr: S_VR, ca: 5, diffsign: 0, diff: 0, pre_alt: 0 }, addr)));
+    }
+    if v.c.pre_alt != 0 {
+        // the row holds a (low) barometric altitude before the velocity squitter arrives
+        l.push(hexline(&frames::df4(addr, frames::ac13_for_alt(v.c.pre_alt - 1))));
     }
     l.push(hexline(&frame(&v.c, addr)));
     l
@@ -81,12 +93,24 @@ fn judge(ctx: &mut Ctx, cfg: &Cfg, v: &V, addr: u32, o: &Obs, vel_mode: bool) ->
     ctx.eval();
     let c = &v.c;
     let path = if v.update { "update" } else { "first" };
-    let case = || json!({"st": c.st, "dew": c.dew, "vew": c.vew, "dns": c.dns, "vns": c.vns, "vrsign": c.vrsign, "vr": c.vr, "update": v.update, "cfg": cfg.opts, "addr": addr, "vel_mode": vel_mode});
+    let case = || json!({"st": c.st, "dew": c.dew, "vew": c.vew, "dns": c.dns, "vns": c.vns, "vrsign": c.vrsign, "vr": c.vr, "update": v.update, "cfg": cfg.opts, "addr": addr, "vel_mode": vel_mode, "ca": c.ca, "diffsign": c.diffsign, "diff": c.diff, "pre_alt": c.pre_alt});
     let Obs::Row(s) = o else {
         ctx.violation(&format!("C09/run/{path}/{}", cfg.label()), &format!("{c:?}"), || format!("{}: no row / crash: {o:?}", frame(c, addr).hex()), case);
         return None;
     };
     let got: O3 = (s.grspeed, s.track, s.vrate);
+    if vel_mode && (c.ca != 5 || c.diff != 0 || c.pre_alt != 0) {
+        // context family: the vertical rate is judged as well
+        match fields::vrate(c.vrsign, c.vr) {
+            Some(want) if s.vrate != Some(want) => {
+                ctx.violation(&format!("C09/vrate/{path}/{}", cfg.label()), &format!("{c:?}"), || format!("{} ({c:?}): expected {want} ft/min, row shows {:?}", frame(c, addr).hex(), s.vrate), case);
+            }
+            None if !(s.vrate.is_none() || (v.update && s.vrate == Some(S_VRATE))) => {
+                ctx.violation(&format!("C09/vrate-noinfo/{path}/{}", cfg.label()), &format!("{c:?}"), || format!("{} ({c:?}): rate field 0; row shows {:?}", frame(c, addr).hex(), s.vrate), case);
+            }
+            _ => {}
+        }
+    }
     if vel_mode {
         let r = fields::velocity(c.dew, c.vew, c.dns, c.vns, c.st == 2);
         let key = format!("st{} ew={}{} ns={}{}", c.st, if c.dew == 1 { '-' } else { '+' }, c.vew, if c.dns == 1 { '-' } else { '+' }, c.vns);
@@ -153,7 +177,7 @@ fn velocity_codes(thorough: bool, mut f: impl FnMut(Code)) {
                 for vew in 0..1024 {
                     for dns in 0..2 {
                         for vns in 0..1024 {
-                            f(Code { st, dew, vew, dns, vns, vrsign: 0, vr: 10 });
+                            f(Code { st, dew, vew, dns, vns, vrsign: 0, vr: 10, ca: 5, diffsign: 0, diff: 0, pre_alt: 0 });
                         }
                     }
                 }
@@ -164,8 +188,8 @@ fn velocity_codes(thorough: bool, mut f: impl FnMut(Code)) {
                 for vew in 0..1024 {
                     for dns in 0..2 {
                         for &vns in &small {
-                            f(Code { st, dew, vew, dns, vns, vrsign: 0, vr: 10 });
-                            f(Code { st, dew: dns, vew: vns, dns: dew, vns: vew, vrsign: 0, vr: 10 });
+                            f(Code { st, dew, vew, dns, vns, vrsign: 0, vr: 10, ca: 5, diffsign: 0, diff: 0, pre_alt: 0 });
+                            f(Code { st, dew: dns, vew: vns, dns: dew, vns: vew, vrsign: 0, vr: 10, ca: 5, diffsign: 0, diff: 0, pre_alt: 0 });
                         }
                     }
                 }
@@ -209,7 +233,7 @@ fn run_block(ctx: &mut Ctx, cfgs: &[Cfg], codes: &[Code], vel_mode: bool) {
                 "C09/paths-disagree",
                 &format!("{c:?}"),
                 || format!("{}: observations differ between first/n-th frame or option sets: {proj:?}", frame(c, BASE).hex()),
-                || json!({"st": c.st, "dew": c.dew, "vew": c.vew, "dns": c.dns, "vns": c.vns, "vrsign": c.vrsign, "vr": c.vr, "agree": true, "vel_mode": vel_mode}),
+                || json!({"st": c.st, "dew": c.dew, "vew": c.vew, "dns": c.dns, "vns": c.vns, "vrsign": c.vrsign, "vr": c.vr, "agree": true, "vel_mode": vel_mode, "ca": c.ca, "diffsign": c.diffsign, "diff": c.diff, "pre_alt": c.pre_alt}),
             );
         }
     }
@@ -246,7 +270,7 @@ fn run(ctx: &mut Ctx) {
     for st in [1u32, 2] {
         for vrsign in 0..2 {
             for vr in 0..512 {
-                vr_codes.push(Code { st, dew: 0, vew: 200, dns: 1, vns: 300, vrsign, vr });
+                vr_codes.push(Code { st, dew: 0, vew: 200, dns: 1, vns: 300, vrsign, vr, ca: 5, diffsign: 0, diff: 0, pre_alt: 0 });
             }
         }
     }
@@ -256,9 +280,31 @@ fn run(ctx: &mut Ctx) {
             run_block(ctx, &cfgs, b, false);
         }
     }
+    // every CA value, every GNSS/baro difference sign x {0,1,41,127}, on rows with and without a low
+    // barometric altitude (pre_alt is stored +1 so that 0 means none: 1 -> 0 ft, 501 -> 500 ft)
+    let mut ctx_codes = vec![];
+    for st in [1u32, 2] {
+        for ca in 0..8 {
+            for diffsign in 0..2 {
+                for diff in [0u32, 1, 41, 127] {
+                    for pre_alt in [0i32, 1, 501, 3151, 36001] {
+                        ctx_codes.push(Code { st, dew: 1, vew: 9, dns: 1, vns: 160, vrsign: 1, vr: 14, ca, diffsign, diff, pre_alt });
+                        ctx_codes.push(Code { st, dew: 0, vew: 0, dns: 1, vns: 160, vrsign: 0, vr: 0, ca, diffsign, diff, pre_alt });
+                    }
+                }
+            }
+        }
+    }
+    for b in ctx_codes.chunks(128) {
+        job += 1;
+        if ctx.mine(job) {
+            ctx.count_n("context-codes", b.len() as u64);
+            run_block(ctx, &cfgs, b, true);
+        }
+    }
     ctx.sample(|| json!({"line": "8D485020994409940838175B284F", "meaning": "classic example: Vew=-8, Vns=-159 -> 159 kt, 182 deg, -832 ft/min"}));
     ctx.sample(|| {
-        let v = V { c: Code { st: 1, dew: 1, vew: 9, dns: 1, vns: 160, vrsign: 1, vr: 14 }, update: true };
+        let v = V { c: Code { st: 1, dew: 1, vew: 9, dns: 1, vns: 160, vrsign: 1, vr: 14, ca: 5, diffsign: 0, diff: 0, pre_alt: 0 }, update: true };
         json!({"vector": "n-th frame", "lines": lines(&v, BASE).iter().map(|l| String::from_utf8_lossy(l).into_owned()).collect::<Vec<_>>(), "expected": {"gs": 159, "track": 182, "vrate": -832}})
     });
     ctx.bound("velocity codes per worker-sum", seen_codes);
@@ -268,7 +314,7 @@ fn run(ctx: &mut Ctx) {
 
 fn replay(ctx: &mut Ctx, case: &Value) {
     let g = |k: &str| case.get(k).and_then(|x| x.as_u64()).unwrap_or(0) as u32;
-    let c = Code { st: g("st"), dew: g("dew"), vew: g("vew"), dns: g("dns"), vns: g("vns"), vrsign: g("vrsign"), vr: g("vr") };
+    let c = Code { st: g("st"), dew: g("dew"), vew: g("vew"), dns: g("dns"), vns: g("vns"), vrsign: g("vrsign"), vr: g("vr"), ca: case.get("ca").and_then(|x| x.as_u64()).unwrap_or(5) as u32, diffsign: g("diffsign"), diff: g("diff"), pre_alt: case.get("pre_alt").and_then(|x| x.as_i64()).unwrap_or(0) as i32 };
     let vel_mode = case.get("vel_mode").and_then(|x| x.as_bool()).unwrap_or(true);
     if case.get("agree").is_some() {
         let cfgs: Vec<Cfg> = CFG4.iter().map(|o| Cfg::new(o)).collect();
